@@ -33,7 +33,7 @@ fn view_point(rng: &mut Rng, near: f32, far: f32, half_w: f32) -> [f32; 3] {
 }
 
 pub fn gen(rng: &mut Rng, tier: Tier, out: &mut Vec<String>) {
-    let n = if tier == Tier::Quick { 1200 } else { 60_000 };
+    let n = if tier == Tier::Quick { 1200 } else { 40_000 };
     for i in 0..n {
         let door = ['r', 'b', 'B', 'r'][i % 4];
         let tgt = if i % 7 == 6 { "cb" } else { "fb" };
@@ -232,5 +232,5 @@ pub fn gen_all(rng: &mut Rng, tier: Tier, out: &mut Vec<String>) {
     gen(rng, tier, out);
     gen_edge_on(rng, if tier == Tier::Quick { 800 } else { 20_000 }, out);
     gen_grazing(rng, if tier == Tier::Quick { 600 } else { 20_000 }, out);
-    gen_needles(rng, if tier == Tier::Quick { 16_000 } else { 200_000 }, out);
+    gen_needles(rng, if tier == Tier::Quick { 16_000 } else { 100_000 }, out);
 }
